@@ -370,6 +370,9 @@ class Interp:
             if v.role == "partition":
                 return ("not", ("partfalse", v.var))
             if v.role == "optional":
+                if v.fam == "list":
+                    # None or a list that may be empty: both are falsy, and they are different answers
+                    return ("and", (("not", ("isnone", v.var)), ("not", ("empty", v.var))))
                 return ("not", ("isnone", v.var))
             return PTRUE
         if isinstance(v, NameV):
